@@ -42,6 +42,7 @@ fn main() {
         Some("replay") => replay(&args),
         Some("dump") => dump(&args),
         Some("export") => export(&args),
+        Some("genbytes") => genbytes(&args),
         _ => { eprintln!("usage: rqh run|replay|dump ..."); std::process::exit(2); }
     }
 }
@@ -372,4 +373,16 @@ fn export(args: &[String]) {
         index += 1;
     }
     println!("{}", n);
+}
+
+
+/// Print the bytes-type input a generator produces for one index (hex), without evaluating any oracle.
+fn genbytes(args: &[String]) {
+    let gen_name = arg(args, "--gen").expect("--gen").to_string();
+    let seed: u64 = arg(args, "--seed").unwrap_or("0").parse().unwrap();
+    let index: u64 = arg(args, "--index").unwrap_or("0").parse().unwrap();
+    let param: u64 = arg(args, "--param").unwrap_or("3").parse().unwrap();
+    let repo = arg(args, "--repo").unwrap_or("/repo").to_string();
+    let src = Source::new(&gen_name, seed, &repo, param);
+    if let Item::Bytes(b) = src.get(index) { println!("{}", hex(&b)); }
 }
